@@ -15,7 +15,7 @@ from ..model import src
 from ..report import Report, key_of
 from ..terms import dag_nodes, has_opaque, pretty
 from ..types import Ctx
-from .common import TRUSTED_BASE, bound_args, cfg_nodes_for, effects_of, facts_text, inl, is_run_edge, subst_single_assign, where
+from .common import TRUSTED_BASE, bound_args, cfg_nodes_for, effects_of, facts_text, inl, is_run_edge, src_resolved, subst_single_assign, where
 
 
 def provenance(t, old_names, new_names):
@@ -41,7 +41,7 @@ def run(A, R: Report, thorough: bool):
     R.explanation = ('Effect summary of migrate_to_parameter_mode with callee holes substituted by the caller\'s receivers, so that `old_task.has_data` yields effects on '
                      'old_task\'s paths and `new_task.has_data` on new_task\'s; CFG branch facts at the copy calls; keyword arguments of the rebuilt Config. '
                      'Not decided: equality of the migrated values.')
-    R.trusted = TRUSTED_BASE + ['shutil.copyfile / copytree read src and write dst only']
+    R.trusted = TRUSTED_BASE + ['shutil.copyfile / copytree read src and write dst only', 'shutil.copytree(symlinks=True) recreates links instead of copying what they point to; a pathlib.Path never compares equal to a str']
     f = A.func('migrate_to_parameter_mode')
     ctx = Ctx(f, None)
     E = effects_of(A)
@@ -61,6 +61,13 @@ def run(A, R: Report, thorough: bool):
                 if isinstance(x, ast.Name):
                     binds.setdefault(x.id, []).append(n.iter)
     at = A.sym.terms_at(f, None, [e for es in binds.values() for e in es])
+    # a mapping created empty and filled in place by a loop: its value is what the loop built, not the `{}` it started from
+    filled = {n_.value.id for n_, _o in A.nodes(f) if _o is f and isinstance(n_, ast.Subscript) and isinstance(n_.ctx, ast.Store) and isinstance(n_.value, ast.Name)}
+    for name in sorted(filled & set(binds)):
+        if len(binds[name]) == 1 and isinstance(binds[name][0], (ast.Dict, ast.Call)) and not getattr(binds[name][0], 'keys', None) and not getattr(binds[name][0], 'args', None):
+            lt = A.sym.local_term(f, None, name)
+            if lt[0] != 'opaque':
+                at[id(binds[name][0])] = [lt]
     tp, cp = ('p', target_param), ('p', cfg_param)
 
     def side(t):
@@ -113,6 +120,9 @@ def run(A, R: Report, thorough: bool):
     R.require(copies, 'anchor: no copy call in migrate_to_parameter_mode')
     loops = [n for n in A.typer.own_nodes(f) if isinstance(n, ast.For) and any(isinstance(x, ast.Name) and x.id in old_names for x in list(ast.walk(n.iter)) + list(ast.walk(n.target)))]
     R.require(loops, 'anchor: loop over the old chain not found in migrate_to_parameter_mode')
+    # the migration loop: the one whose body reaches a copy (loops that only build the name -> task maps are not it)
+    copy_ids = [cn.id for e in copies for cn in cfg_nodes_for(cfg, e.site)]
+    loops = [lp for lp in loops if any(cfg.find_path(cfg.succ_by_label(h.id, 'loop'), copy_ids, avoid=[h.id]) is not None for h in cfg.nodes.values() if h.kind == 'for' and h.ast is lp)] or loops
     heads = [n.id for n in cfg.nodes.values() if n.kind == 'for' and n.ast in loops]
     starts = [v for h in heads for v in cfg.succ_by_label(h, 'loop')]
     allnodes = list(cfg.nodes)
@@ -158,6 +168,86 @@ def run(A, R: Report, thorough: bool):
     p = cfg.find_path(starts, heads, avoid=legit + copy_nodes, no_exc_from=allnodes)
     R.check(p is None, 'R20.2b', 'migrate_to_parameter_mode: loop', key_of('skip', p is None), 'a task is skipped only for a legitimate reason',
             'a task that has a stored result can be skipped for another reason: its result is not carried over', witness=cfg.describe_path(p) if p else None, where=where(f, loops[0]))
+
+    # ---- R20.9 an existing target is accepted only after comparing it with the source
+    R.rule('R20.9', 'every size comparison that accepts an existing target relates the old task\'s data to the new task\'s (never a value to itself)', floor=1)
+    n9 = 0
+    for n_, o_ in A.nodes(f):
+        pairs = []
+        if isinstance(n_, ast.Compare) and len(n_.ops) == 1 and isinstance(n_.ops[0], (ast.Eq, ast.NotEq)):
+            pairs.append((n_.left, n_.comparators[0]))
+        elif isinstance(n_, ast.Call) and src(n_.func).split('.')[-1] == 'isclose' and len(n_.args) >= 2:
+            pairs.append((n_.args[0], n_.args[1]))
+        for a_, b_ in pairs:
+            ta, tb = src_resolved(A, o_, a_), src_resolved(A, o_, b_)
+            if 'stat()' not in ta + tb and 'st_size' not in ta + tb and 'getsize' not in ta + tb:
+                continue
+            n9 += 1
+
+            def sides_of(text):
+                import re as _re
+                names = set(_re.findall(r'[A-Za-z_][A-Za-z_0-9]*', text))
+                return {'old' for x in names if x in old_names} | {'new' for x in names if x in new_names}
+            sa, sb = sides_of(src(a_)) | sides_of(src(subst_single_assign(A, o_, a_))), sides_of(src(b_)) | sides_of(src(subst_single_assign(A, o_, b_)))
+            if o_ is f:
+                # by value: which chain the compared expression is computed from (locals, loop variables and name maps resolved in the term)
+                tt = A.sym.terms_at(f, None, [a_, b_])
+                va = {side(t_) for t_ in tt.get(id(a_), [])} - {None}
+                vb = {side(t_) for t_ in tt.get(id(b_), [])} - {None}
+                sa, sb = (va or sa), (vb or sb)
+            ok9 = (sa == {'old'} and sb == {'new'}) or (sa == {'new'} and sb == {'old'})
+            R.check(ok9, 'R20.9', f'migrate_to_parameter_mode: `{src(n_)[:50]}`', key_of('size-compare', sorted(sa), sorted(sb)), 'source size against target size',
+                    f'`{src(n_)[:80]}` compares `{ta[:60]}` ({sorted(sa)}) with `{tb[:60]}` ({sorted(sb)}): a half-written target left by an interrupted migration is accepted as "already exists", and the chain loads a truncated result',
+                    where=where(o_, n_))
+    if n9 == 0:
+        R.violation('R20.9', 'migrate_to_parameter_mode: existing target', key_of('no-size-compare'), 'an existing target is accepted without comparing it with the source: a half-written target left by an interrupted migration is kept', where=where(f))
+
+    # ---- R20.10 what is copied is the content
+    R.rule('R20.10', 'copy calls carry no option that changes what is copied (links are followed, nothing is ignored)', floor=2)
+    for e in copies:
+        c_ = e.site if isinstance(e.site, ast.Call) else None
+        if c_ is None:
+            continue
+        opts = {kw.arg: kw.value for kw in c_.keywords if kw.arg}
+        bad10 = [k_ for k_, v_ in opts.items() if (k_ == 'symlinks' and not (isinstance(v_, ast.Constant) and v_.value is False)) or (k_ == 'follow_symlinks' and not (isinstance(v_, ast.Constant) and v_.value is True))
+                 or (k_ in ('ignore', 'copy_function', 'ignore_dangling_symlinks') and not (isinstance(v_, ast.Constant) and v_.value in (None, False)))]
+        R.check(not bad10, 'R20.10', f'migrate_to_parameter_mode: `{src(c_)[:60]}`', key_of('copy-options', sorted(bad10)), 'plain content copy',
+                f'`{src(c_)[:80]}` passes {sorted(bad10)}: links inside a directory result are recreated as links (relative ones dangle in the target tree, where the inputs are stored under hash names) / parts of the result are left out',
+                where=where(f, c_))
+
+    # ---- R20.11 the source != target guard compares like with like
+    R.rule('R20.11', 'the guard that the target differs from the source compares two values of the same form (both as given, or both converted to Path)', floor=0)
+    cinit20 = A.cls('Config').lookup('__init__')
+
+    def form_of(e, func, depth=0):
+        """'path' if the value went through Path(...) / resolve / abspath, 'raw' if it is a parameter as given; through attributes stored by Config.__init__"""
+        e = subst_single_assign(A, func, e)
+        if isinstance(e, ast.Call):
+            fn = src(e.func)
+            if fn.split('.')[-1] in ('Path', 'PurePath', 'resolve', 'absolute', 'abspath', 'realpath', 'expanduser'):
+                return {'path'}
+            if fn == 'str' and e.args:
+                return {'str'}
+            return {'?'}
+        if isinstance(e, ast.IfExp):
+            return {x for br in (e.body, e.orelse) if not (isinstance(br, ast.Constant) and br.value is None) for x in form_of(br, func, depth)}
+        if isinstance(e, ast.Name):
+            return {'raw'} if e.id in func.params else {'?'}
+        if isinstance(e, ast.Attribute) and depth < 2:
+            stores = [n_.value for n_ in A.typer.own_nodes(cinit20) if isinstance(n_, ast.Assign) and any(src(t_) == f'self.{e.attr}' for t_ in n_.targets)]
+            if stores:
+                return {x for v_ in stores for x in form_of(v_, cinit20, depth + 1)}
+        return {'?'}
+
+    for n_ in A.typer.own_nodes(f):
+        if isinstance(n_, ast.Compare) and len(n_.ops) == 1 and isinstance(n_.ops[0], (ast.NotEq, ast.Eq)) and target_param in src(n_) and 'base_dir' in src(n_):
+            fa, fb = form_of(n_.left, f), form_of(n_.comparators[0], f)
+            if '?' in fa | fb:
+                R.undecided('R20.11', f'migrate_to_parameter_mode: `{src(n_)[:50]}`', f'form of the compared values not recognised ({sorted(fa)} vs {sorted(fb)})', where=where(f, n_))
+            else:
+                R.check(fa == fb, 'R20.11', f'migrate_to_parameter_mode: `{src(n_)[:50]}`', key_of('guard-forms', sorted(fa), sorted(fb)), f'both sides {sorted(fa)}',
+                        f'`{src(n_)[:60]}` compares a value of form {sorted(fa)} with one of form {sorted(fb)}: a Path never equals a str, so migrating into the source directory itself passes the guard and writes hash-named copies into the source tree',
+                        where=where(f, n_))
 
     # ---- R20.3
     R.rule('R20.3', 'the config rebuilt for the target dir carries the source config\'s file path, part, global vars and context', floor=1)
